@@ -87,7 +87,8 @@ func init() {
 			ctx context.Context,
 			err error,
 		) (msg string, safeDetails []string, payload proto.Message) {
-			return "", nil, nil
+			// The text is only used by processes that do not know this type.
+			return err.Error(), nil, nil
 		},
 	)
 	errbase.RegisterMultiCauseDecoder(
